@@ -12,6 +12,7 @@ import OFV.Proofs.C05Term
 import OFV.Proofs.C05Maj
 import OFV.Proofs.C05Srl
 import OFV.Proofs.C05TreeLadder
+import OFV.Proofs.C05Car
 
 namespace OFV.C05
 open OFV OFV.Spec OFV.Model OFV.Model.C05 OFV.Sem OFV.BK OFV.BKT
@@ -197,6 +198,71 @@ theorem tree_exact (tol : Rat) (htol : tol * tol ≤ 1 / 4) (n : Nat) (A : Model
   simp only [Function.comp]
   rw [this, den_cons, den_nil, add_zero]
 
+/-! ### the relations the property names: CAR, number operators, vacuum -/
+
+/-- **canonical anticommutation relations of the Bravyi-Kitaev images** (every `n`, `i, j < n`): the products
+computed by `_transform_operator_term` for `a_i a†_j` and `a†_j a_i` add up to `δ_ij` on encoded states -/
+theorem bk_car (tol : Rat) (htol : tol * tol ≤ 1 / 4) (n i j : Nat) (hi : i < n) (hj : j < n) (s s' : Nat) :
+    GV.coeff (applyOp .qubit (bkTerm tol n [(i, 0), (j, 1)] 1) [Spec.C05.enc .bk n s]) [Spec.C05.enc .bk n s']
+    + GV.coeff (applyOp .qubit (bkTerm tol n [(j, 1), (i, 0)] 1) [Spec.C05.enc .bk n s]) [Spec.C05.enc .bk n s']
+      = if i = j then (if s = s' then 1 else 0) else 0 := by
+  rw [bk_term_exact tol htol n _ (by intro f hf; simp at hf; rcases hf with rfl | rfl <;> simp <;> omega) 1 s s',
+    bk_term_exact tol htol n _ (by intro f hf; simp at hf; rcases hf with rfl | rfl <;> simp <;> omega) 1 s s']
+  change den .fermion _ _ _ + den .fermion _ _ _ = _
+  rw [den_cons, den_nil, den_cons, den_nil, add_zero, add_zero, one_mul, one_mul]
+  exact spec_car i j s s'
+
+/-- `{b_i, b_j} = 0` for the images of two annihilation operators -/
+theorem bk_car_ann (tol : Rat) (htol : tol * tol ≤ 1 / 4) (n i j : Nat) (hi : i < n) (hj : j < n) (s s' : Nat) :
+    GV.coeff (applyOp .qubit (bkTerm tol n [(i, 0), (j, 0)] 1) [Spec.C05.enc .bk n s]) [Spec.C05.enc .bk n s']
+    + GV.coeff (applyOp .qubit (bkTerm tol n [(j, 0), (i, 0)] 1) [Spec.C05.enc .bk n s]) [Spec.C05.enc .bk n s']
+      = 0 := by
+  rw [bk_term_exact tol htol n _ (by intro f hf; simp at hf; rcases hf with rfl | rfl <;> simp <;> omega) 1 s s',
+    bk_term_exact tol htol n _ (by intro f hf; simp at hf; rcases hf with rfl | rfl <;> simp <;> omega) 1 s s']
+  change den .fermion _ _ _ + den .fermion _ _ _ = _
+  rw [den_cons, den_nil, den_cons, den_nil, add_zero, add_zero, one_mul, one_mul]
+  exact spec_car_ann i j s s'
+
+/-- **number operators are diagonal**: the image of `a†_j a_j` maps `|enc s⟩` to `s_j |enc s⟩` -/
+theorem bk_number_diagonal (tol : Rat) (htol : tol * tol ≤ 1 / 4) (n j : Nat) (hj : j < n) (s s' : Nat) :
+    GV.coeff (applyOp .qubit (bkTerm tol n [(j, 1), (j, 0)] 1) [Spec.C05.enc .bk n s]) [Spec.C05.enc .bk n s']
+      = if s.testBit j then (if s = s' then 1 else 0) else 0 := by
+  rw [bk_term_exact tol htol n _ (by intro f hf; simp at hf; rcases hf with rfl | rfl <;> simp <;> omega) 1 s s']
+  change den .fermion _ _ _ = _
+  rw [den_cons, den_nil, add_zero, one_mul, diag_fermion]
+
+/-- **the all-zero register is the vacuum**: it encodes the empty occupation, and every transformed
+annihilation operator sends it to 0 (both variants) -/
+theorem bk_vacuum (tol : Rat) (htol : tol * tol ≤ 1 / 4) (n j : Nat) (hj : j < n) (x : Nat) :
+    Spec.C05.enc .bk n 0 = 0 ∧ Spec.C05.enc .tree n 0 = 0
+    ∧ GV.coeff (applyOp .qubit (bkTerm tol n [(j, 0)] 1) [0]) [x] = 0
+    ∧ GV.coeff (applyOp .qubit (bkTreeTerm tol (mkTree n) n [(j, 0)] 1) [0]) [x] = 0 := by
+  obtain ⟨e1, e2⟩ := enc_zero n
+  refine ⟨e1, e2, ?_, ?_⟩
+  · have := bkTerm_den tol htol n [(j, 0)] (by intro f hf; simp at hf; subst hf; simp; omega) 1 0 x
+    rw [e1] at this
+    change den .qubit _ _ _ = 0
+    rw [this]
+    simp [actFTerm, actF]
+  · have := bkTreeTerm_den tol htol n [(j, 0)] (by intro f hf; simp at hf; subst hf; simp; omega) 1 0 x
+    rw [e2] at this
+    change den .qubit _ _ _ = 0
+    rw [this]
+    simp [actFTerm, actF]
+
+/-- CAR for the tree variant -/
+theorem tree_car (tol : Rat) (htol : tol * tol ≤ 1 / 4) (n i j : Nat) (hi : i < n) (hj : j < n) (s s' : Nat) :
+    GV.coeff (applyOp .qubit (bkTreeTerm tol (mkTree n) n [(i, 0), (j, 1)] 1) [Spec.C05.enc .tree n s])
+        [Spec.C05.enc .tree n s']
+    + GV.coeff (applyOp .qubit (bkTreeTerm tol (mkTree n) n [(j, 1), (i, 0)] 1) [Spec.C05.enc .tree n s])
+        [Spec.C05.enc .tree n s']
+      = if i = j then (if s = s' then 1 else 0) else 0 := by
+  rw [tree_term_exact tol htol n _ (by intro f hf; simp at hf; rcases hf with rfl | rfl <;> simp <;> omega) 1 s s',
+    tree_term_exact tol htol n _ (by intro f hf; simp at hf; rcases hf with rfl | rfl <;> simp <;> omega) 1 s s']
+  change den .fermion _ _ _ + den .fermion _ _ _ = _
+  rw [den_cons, den_nil, den_cons, den_nil, add_zero, add_zero, one_mul, one_mul]
+  exact spec_car i j s s'
+
 /-! ### non-vacuity -/
 
 example : Generated.eqTolerance * Generated.eqTolerance ≤ 1 / 4 := by
@@ -228,7 +294,7 @@ example : bkTreeFermionOk Generated.eqTolerance 6
   `_seeley_richard_love`; only the exhaustiveness of the case split, `srl_cases_exhaustive`, is proved).
 * `bk_interaction_sound` (open): `bkInteractionOp N n …` denotes the tensor formula under `enc .bk n`, for all
   `n ≥ N` (would follow from `srl_sound` and the product/sum lemmas used for `bk_exact`).
-* CAR, diagonal number operators, vacuum, isospectrality with Jordan-Wigner as separate statements (they follow
-  from `bk_term_exact` / `tree_term_exact`, the injectivity of `enc`, `enc 0 = 0`, and the Spec's CAR lemmas). -/
+* isospectrality with Jordan-Wigner / preservation of expectation values as separate statements (they follow from
+  `bk_exact` + `bk_enc_injective`: the transformed operator is the Jordan-Wigner one conjugated by the relabelling). -/
 
 end OFV.C05
